@@ -155,6 +155,19 @@ Qed.
 Lemma taddr_inj l t u : taddr l t = taddr l u -> t = u.
 Proof. destruct t, u; simpl; congruence. Qed.
 
+Lemma upd_upd_same {A} (a : list A) i x y : upd (upd a i x) i y = upd a i y.
+Proof. revert i; induction a as [|z a IH]; intros [|i]; simpl; auto. rewrite IH; auto. Qed.
+
+Lemma upd_comm {A} (a : list A) i j x y : i <> j -> upd (upd a i x) j y = upd (upd a j y) i x.
+Proof.
+  revert i j; induction a as [|z a IH]; intros [|i] [|j] H; simpl; auto; try congruence.
+  rewrite IH; auto.
+Qed.
+
+Lemma chain_head h s l :
+  chain h s l -> s = match l with [] => None | x :: _ => Some (Nd x) end.
+Proof. destruct l; unfold chain; simpl; tauto. Qed.
+
 Section Sim.
   Variable key : nat -> Z.
 
@@ -412,6 +425,126 @@ Section Sim.
     - intros H. exists b. split; auto. apply Nat.eqb_refl.
   Qed.
 
+  (** ** foreach with the visitor that moves the visited element to list [d] *)
+
+  (** One visit, from related states, with [e] the first element of [l]:
+      pop_front(l) hands back [e] and push_back(d, e) links it behind [d]'s
+      tail; the states are related again, and -- this is why
+      cstl_slist_foreach has to read the successor first -- the link
+      [n = c->n] the loop saved BEFORE calling the visitor is the first link
+      of [l] afterwards: pop_front copies it into the head link, and
+      push_back onto the other list writes only [e]'s own link and [d]'s
+      tail link.  ([e]'s own link is overwritten by push_back, so reading
+      [c->n] after the visit would see [d]'s end instead.) *)
+  Lemma sim_fmove_visit a p l d sl dl e r sl1 dl1 :
+    sys_wf a -> R a p -> l <> d ->
+    nth_error a l = Some sl -> nth_error a d = Some dl -> items sl = e :: r ->
+    pop_front sl = Ok (sl1, Some e) -> push_back dl e = Ok dl1 ->
+    exists ol p1 od,
+      nth_error (objs p) l = Some ol /\
+      p_pop_front p l ol = Ok (p1, Some (Nd e)) /\
+      nth_error (objs p1) d = Some od /\
+      sys_wf (upd (upd a l sl1) d dl1) /\
+      R (upd (upd a l sl1) d dl1) (p_insert_after p1 d od (lt od) e) /\
+      nx (p_insert_after p1 d od (lt od) e) (Hd l) = nx p (Nd e) /\
+      items sl1 = r.
+  Proof.
+    intros W HR Hne El Ed EL Epop Epush.
+    pose proof W as (Wf & Wn).
+    pose proof (nth_error_Forall _ _ _ _ Wf El) as Wl.
+    pose proof (nth_error_Forall _ _ _ _ Wf Ed) as Wd.
+    destruct (proj2 HR _ _ El) as (ol & Eol & Cl & Htl & Hcl).
+    pose proof (pop_front_spec sl Wl) as P. rewrite EL in P.
+    destruct P as (sl1' & E1 & I1 & W1). rewrite Epop in E1. inversion E1; subst sl1'. clear E1.
+    (* pop_front = erase_after at the head link *)
+    assert (Etl : opt_eqb (tail sl) None = false).
+    { destruct (opt_eqb_spec (tail sl) None) as [Et|Et]; auto.
+      apply (wf_tail_None _ Wl) in Et. congruence. }
+    unfold pop_front in Epop. rewrite Etl in Epop.
+    destruct (erase_after sl None) as [[sl1'' n]|] eqn:Eer; [|discriminate].
+    inversion Epop; subst sl1'' n. clear Epop.
+    destruct (sim_erase_after a p l sl ol None sl1 e W HR El Eol Eer I) as (p1 & Ep1 & HR1).
+    simpl taddr in Ep1.
+    assert (W1s : sys_wf (upd a l sl1)).
+    { eapply sys_wf_upd; eauto. intros pre post Hnd Eq. rewrite I1.
+      eapply NoDup_sub_mid; [rewrite <- I1; apply W1| |exact Hnd].
+      rewrite EL. intros z Hz; simpl; auto. }
+    assert (Ed1 : nth_error (upd a l sl1) d = Some dl) by (rewrite nth_error_upd_other; auto).
+    destruct (proj2 HR1 _ _ Ed1) as (od & Eod & Cd & Htd & Hcd).
+    assert (Hfresh : ~ In e (flat_map items (upd a l sl1))).
+    { destruct (flat_map_upd_perm a l sl sl1 El) as (pre & post & F1 & F2).
+      rewrite F2, I1. rewrite F1, EL in Wn. simpl in Wn. apply NoDup_remove_2 in Wn. exact Wn. }
+    assert (Hed : ~ In e (items dl)) by (eapply notin_flat; eauto).
+    destruct (push_back_spec dl e Wd Hed) as (dl1' & E2 & I2 & W2).
+    rewrite Epush in E2. inversion E2; subst dl1'. clear E2.
+    assert (W2s : sys_wf (upd (upd a l sl1) d dl1)).
+    { eapply sys_wf_upd; eauto. intros pre post Hnd Eq. rewrite I2.
+      eapply NoDup_add_mid with (e := e) (a := items dl); eauto. rewrite <- Eq; auto.
+      apply Permutation_cons_append. }
+    assert (HR2 : R (upd (upd a l sl1) d dl1) (p_insert_after p1 d od (lt od) e)).
+    { rewrite Htd. apply (sim_insert_after (upd a l sl1) p1 d dl od (tail dl) e dl1); auto.
+      destruct (tail dl) as [t|] eqn:Et; auto.
+      destruct Wd as (Htl' & _). rewrite Et in Htl'. symmetry in Htl'. apply last_opt_In in Htl'. exact Htl'. }
+    exists ol, p1, od. split; auto. split.
+    { unfold p_pop_front. rewrite Htl. change (Hd l) with (taddr l None) at 1. rewrite taddr_eqb, Etl.
+      simpl taddr. rewrite Ep1. reflexivity. }
+    split; auto. split; auto. split; auto. split; auto.
+    (* the saved successor *)
+    assert (Hl2 : nth_error (upd (upd a l sl1) d dl1) l = Some sl1).
+    { rewrite nth_error_upd_other by auto. apply nth_error_upd_same. apply nth_error_Some. congruence. }
+    destruct (proj2 HR2 _ _ Hl2) as (ol2 & _ & Cl2 & _).
+    apply chain_head in Cl2. rewrite I1 in Cl2. rewrite Cl2.
+    rewrite EL in Cl. unfold chain in Cl. simpl in Cl. destruct Cl as (_ & Cl).
+    apply chain_head in Cl. rewrite Cl. reflexivity.
+  Qed.
+
+  (** The pointer-level loop (successor saved before the visitor, visitor =
+      the pointer-level pop_front and push_back) follows the sequence-level
+      loop: same log, same result, same mismatch count, related states. *)
+  Lemma sim_fmove_loop l d fuel : forall a p sl dl stop k acc bad sl' dl' log r bad',
+    sys_wf a -> R a p -> l <> d -> nth_error a l = Some sl -> nth_error a d = Some dl ->
+    fmove_loop fuel (hd_error (items sl)) sl dl stop k acc bad = Ok (sl', dl', log, r, bad') ->
+    exists p', p_fmove_loop fuel p l d (nx p (Hd l)) stop k acc bad = Ok (p', log, r, bad') /\
+               R (upd (upd a l sl') d dl') p'.
+  Proof.
+    assert (Hnil : forall fuel a p sl dl stop k acc bad sl' dl' log r bad',
+      R a p -> nth_error a l = Some sl -> nth_error a d = Some dl -> items sl = [] ->
+      fmove_loop fuel None sl dl stop k acc bad = Ok (sl', dl', log, r, bad') ->
+      exists p', p_fmove_loop fuel p l d (nx p (Hd l)) stop k acc bad = Ok (p', log, r, bad') /\
+                 R (upd (upd a l sl') d dl') p').
+    { intros fuel0 a p sl dl stop k acc bad sl' dl' log r bad' HR El Ed EL H.
+      destruct (proj2 HR _ _ El) as (ol & _ & Cl & _). rewrite EL in Cl. apply chain_head in Cl.
+      rewrite Cl. assert (H' : Ok (sl, dl, rev acc, 0%Z, bad) = Ok (sl', dl', log, r, bad'))
+        by (destruct fuel0; exact H).
+      inversion H'; subst. exists p. split; [destruct fuel0; reflexivity|].
+      rewrite (upd_same a l sl' El), (upd_same a d dl' Ed). exact HR. }
+    induction fuel as [|f IH]; intros a p sl dl stop k acc bad sl' dl' log r bad' W HR Hne El Ed H;
+      destruct (items sl) as [|e rr] eqn:EL; try (eapply Hnil; eauto; fail).
+    - simpl in H. discriminate.
+    - cbn [hd_error fmove_loop] in H. rewrite EL in H. cbn [next_of] in H. rewrite Nat.eqb_refl in H.
+      pose proof W as (Wf & _). pose proof (nth_error_Forall _ _ _ _ Wf El) as Wl.
+      pose proof (pop_front_spec sl Wl) as P. rewrite EL in P.
+      destruct P as (sl1 & E1 & I1 & W1). rewrite E1 in H.
+      cbn [opt_eqb] in H. rewrite Nat.eqb_refl in H.
+      destruct (push_back dl e) as [dl1|] eqn:E2; [|discriminate].
+      destruct (sim_fmove_visit a p l d sl dl e rr sl1 dl1 W HR Hne El Ed EL E1 E2)
+        as (ol & p1 & od & Eol & Epp & Eod & W2 & HR2 & Hsucc & _).
+      destruct (proj2 HR _ _ El) as (ol' & _ & Cl & _). rewrite EL in Cl. apply chain_head in Cl.
+      rewrite Cl. cbn [p_fmove_loop elem_of]. rewrite Eol, Epp. cbn [addr_eqb]. rewrite Nat.eqb_refl, Eod.
+      destruct ((0 <? stop)%nat && Nat.eqb (S k) stop).
+      + inversion H; subst. eexists; split; [reflexivity|]. exact HR2.
+      + assert (Hl : (l < length a)%nat) by (apply nth_error_Some; congruence).
+        assert (Hd' : (d < length a)%nat) by (apply nth_error_Some; congruence).
+        rewrite <- I1 in H.
+        destruct (IH (upd (upd a l sl1) d dl1) (p_insert_after p1 d od (lt od) e)
+                     sl1 dl1 stop (S k) (e :: acc) bad sl' dl' log r bad') as (p' & Ep & HR'); auto.
+        * rewrite nth_error_upd_other by auto. apply nth_error_upd_same; auto.
+        * apply nth_error_upd_same. rewrite upd_length; auto.
+        * rewrite Hsucc in Ep. exists p'. split; auto.
+          rewrite (upd_comm (upd a l sl1) d l dl1 sl') in HR' by auto.
+          rewrite upd_upd_same, upd_upd_same in HR'. exact HR'.
+  Qed.
+
   Notation astep := (SListModel.step key false).
 
   (** Forward simulation: every operation of the domain other than sort
@@ -425,7 +558,7 @@ Section Sim.
     end.
   Proof.
     intros W HR Hns. pose proof W as (Wf & Wn).
-    destruct o as [l e|l e|l b e|l b|l|l|l|l|l|l|d sr|x y|l stop|l];
+    destruct o as [l e|l e|l b e|l b|l|l|l|l|l|l|d sr|x y|l stop|l|l d stop];
       cbn [SListModel.step p_step]; unfold with_list, with_obj.
     - (* PushFront *)
       destruct (nth_error a l) as [sl|] eqn:E; [|rewrite (R_none _ _ _ HR E); auto].
@@ -628,5 +761,17 @@ Section Sim.
       apply R_upd_one with (sl := sl); auto; simpl.
       + unfold chain; simpl. apply hupd_same.
       + intros j Hj. rewrite hupd_other; auto. congruence.
+    - (* FMove *)
+      destruct (Nat.eqb_spec l d) as [->|Hne]; auto.
+      destruct (nth_error a l) as [sl|] eqn:El; [|rewrite (R_none _ _ _ HR El); auto].
+      destruct (proj2 HR _ _ El) as (ol & Eol & Cl & Htl & Hcl). rewrite Eol.
+      destruct (nth_error a d) as [dl|] eqn:Ed; [|rewrite (R_none _ _ _ HR Ed); auto].
+      destruct (proj2 HR _ _ Ed) as (od & Eod & _). rewrite Eod.
+      unfold fmove. rewrite Hcl.
+      destruct (fmove_loop (S (N.to_nat (count sl))) (hd_error (items sl)) sl dl stop 0 [] 0)
+        as [[[[[sl' dl'] log] r] bad]|] eqn:EF; auto.
+      destruct (sim_fmove_loop l d _ a p sl dl stop 0%nat [] 0%nat sl' dl' log r bad W HR Hne El Ed EF)
+        as (p' & Ep & HR').
+      rewrite Ep. eexists; split; [reflexivity|]; auto.
   Qed.
 End Sim.
